@@ -6,7 +6,8 @@
    /repo/internal/state/state.go (stateDBWrite: TWO transactions, the second one only distributes state updates),
    /repo/internal/state/actions.go + mailbox.go (APPEND = actionCreateMessage: store.SetUnchecked BEFORE the row insert inside
    the transaction; COPY / MOVE / EXPUNGE: row statements only), internal/state/state.go Create/Delete/Rename,
-   /repo/internal/backend/connector_updates.go (applyMessagesCreated: store sets, inserts; on error the new files are deleted;
+   /repo/internal/backend/connector_updates.go (applyMessagesCreated: per chunk of db.ChunkLimit new messages the store sets, then
+   the inserts; on error the new files are deleted;
    applyMessageUpdated: insert, THEN store.Set, inside the transaction; applyMessageDeleted (after C06-fix-3)),
    /repo/internal/backend/user.go (removeState: rows first, files afterwards; newUser: deleteAllMessagesMarkedDeleted,
    cleanupStaleStoreData), /repo/internal/db_impl/sqlite3/client.go (wrapTx: commit or rollback),
@@ -164,7 +165,7 @@ Inductive cs_op :=
 | OpCreate (mbs : list (N * N))                            (* missing parents, then the mailbox *)
 | OpDelete (mb : N)
 | OpRename (news : list (N * N)) (renames : list (N * N))  (* parents created, then mailbox + inferiors renamed *)
-| OpConnCreate (msgs : list (N * cs_bytes)) (rows : list (N * N * N))
+| OpConnCreate (chunks : list (list (N * cs_bytes))) (rows : list (N * N * N))   (* new messages in chunks of db.ChunkLimit *)
 | OpConnUpdate (old new : N) (b : cs_bytes) (oldrows : list N) (newrows : list (N * N))
 | OpConnDelete (id : N) (mbs : list N)
 | OpSessionEnd (ids : list N)                              (* removeState: purge of the messages marked deleted *)
@@ -194,8 +195,9 @@ Definition cs_steps (op : cs_op) (m : cs_m) : list cs_step :=
   | OpRename news renames =>
       [SBegin; SRead] ++ flat_map (fun p => [SConn 6; SStmt (StCreateMb (fst p) (snd p))]) news
       ++ [SConn 8] ++ map (fun p => SStmt (StSetMeta (fst p) (snd p))) renames ++ [SCommit]
-  | OpConnCreate msgs rows =>
-      [SBegin; SRead] ++ map (fun p => SSet (fst p) (snd p)) msgs ++ map (fun p => SStmt (StInsertMsg (fst p))) msgs
+  | OpConnCreate chunks rows =>
+      [SBegin; SRead]
+      ++ flat_map (fun ch => map (fun p => SSet (fst p) (snd p)) ch ++ map (fun p => SStmt (StInsertMsg (fst p))) ch) chunks
       ++ map (fun r => SStmt (StInsertRow (row_mb r) (row_uid r) (row_msg r))) rows ++ [SCommit]
   | OpConnUpdate old new b oldrows newrows =>
       [SRead; SBegin; SGet old] ++ map (fun mb => SStmt (StDeleteRow mb old)) oldrows
@@ -217,7 +219,7 @@ Definition cs_steps (op : cs_op) (m : cs_m) : list cs_step :=
 (* the operation's own clean-up after an error (only applyMessagesCreated has one: the files it wrote are deleted) *)
 Definition cs_cleanup (op : cs_op) : list cs_step :=
   match op with
-  | OpConnCreate msgs _ => map (fun p => SDel (fst p)) msgs
+  | OpConnCreate chunks _ => map (fun p => SDel (fst p)) (concat chunks)
   | _ => []
   end.
 
